@@ -21,7 +21,7 @@ theorem parse_of_canonTok {t : Str} (h : canonTok t = true) :
   | error e => simp [hp] at hr
   | ok d =>
     simp only [hp] at hr ⊢
-    exact ⟨rfl, by simpa using hr⟩
+    exact ⟨trivial, by simpa using hr⟩
 
 theorem parseInt_natStr (n : Nat) : parseInt (natStr n) = .ok (n : Int) := by
   have := parseInt_spaces_digits 0 (natStr_ne_nil n) (natStr_digits n)
@@ -29,9 +29,9 @@ theorem parseInt_natStr (n : Nat) : parseInt (natStr n) = .ok (n : Int) := by
 
 theorem normIdx_nat {dim x : Nat} (h : x < dim) : normIdx dim (x : Int) = .ok x := by
   unfold normIdx
-  have h1 : (0 ≤ (x : Int) && (x : Int) < (dim : Int)) = true := by
-    simp only [Bool.and_eq_true, decide_eq_true_eq]; omega
-  simp [h1]
+  have h0 : (0 : Int) ≤ (x : Int) := by omega
+  have h1 : (x : Int) < (dim : Int) := by omega
+  simp [h0, h1]
 
 /-- the two entries `Q[r, c] = v; Q[c, r] = v` -/
 def symEntry (e : (Nat × Nat) × Dbl) (r c : Nat) (v : Dbl) : Prop :=
@@ -83,5 +83,211 @@ theorem velSetVals_spec (dim i j0 : Nat) (hi : i < dim) :
             have : j0 + (k + 1) + p = j0 + k + (p + 1) := by omega
             rw [this]
             simpa [List.getD_cons_succ] using hs
+
+end Sinex
+
+namespace Sinex
+open Sinex.Spec
+
+/-- one data line `PARA1 = i+1`, `PARA2 = j0+1`, values `toks` -/
+theorem velMatLoop_line (dim i j0 : Nat) (hi : i < dim) (toks : List Str) (hlen : toks.length ≤ 3)
+    (hdim : j0 + toks.length ≤ dim) (hc : ∀ t ∈ toks, canonTok t = true) (ls : List Str)
+    (st : VelMatState) :
+    ∃ q', velMatLoop dim (matLine (fmt5d ((i + 1 : Nat) : Int)) ((j0 + 1 : Nat) : Int) (toks.map padTok) :: ls) st
+        = velMatLoop dim ls { st with q := q', hasData := true } ∧
+      ∀ e, e ∈ q' ↔ e ∈ st.q ∨ ∃ p, p < toks.length ∧ symEntry e i (j0 + p) (tokVal (toks.getD p [])) := by
+  obtain ⟨q', hq', hmem⟩ := velSetVals_spec dim i j0 hi toks 0 st.q (by omega) (by omega)
+    (fun t ht => (parse_of_canonTok (hc t ht)).1)
+  refine ⟨q', ?_, by simpa using hmem⟩
+  have hsplit := split_matLine (i + 1) (j0 + 1) toks (fun t ht => word_of_canonTok (hc t ht))
+  have hline : matLine (fmt5d ((i + 1 : Nat) : Int)) ((j0 + 1 : Nat) : Int) (toks.map padTok)
+      = ' ' :: (fmt5d ((i + 1 : Nat) : Int) ++ ' ' :: fmt5d ((j0 + 1 : Nat) : Int)
+          ++ ((toks.map padTok).map (fun v => ' ' :: v)).flatten) := by
+    simp [matLine, List.append_assoc]
+  rw [hline] at hsplit ⊢
+  simp only [velMatLoop, show ((' ' == '+') || (' ' == '*')) = false by decide, show (' ' == '-') = false by decide,
+    Bool.false_eq_true, if_false, hsplit, parseInt_natStr, hq']
+
+theorem getD_take_lt {α : Type} (l : List α) (n p : Nat) (d : α) (h : p < n) :
+    (l.take n).getD p d = l.getD p d := by
+  simp [List.getD_eq_getElem?_getD, h]
+
+theorem getD_drop {α : Type} (l : List α) (n p : Nat) (d : α) :
+    (l.drop n).getD p d = l.getD (n + p) d := by
+  simp [List.getD_eq_getElem?_getD, List.getElem?_drop]
+
+/-- the lines of one row (PARA1 = `i+1`, first PARA2 = `j0+1`) -/
+theorem velMatLoop_row (dim i : Nat) (hi : i < dim) :
+    ∀ (toks : List Str) (j0 : Nat), j0 + toks.length ≤ dim → (∀ t ∈ toks, canonTok t = true) → toks ≠ [] →
+      ∀ (rest : List Str) (st : VelMatState),
+      ∃ q', velMatLoop dim (rowLines (fmt5d ((i + 1 : Nat) : Int)) (j0 + 1) (toks.map padTok) ++ rest) st
+          = velMatLoop dim rest { st with q := q', hasData := true } ∧
+        ∀ e, e ∈ q' ↔ e ∈ st.q ∨ ∃ p, p < toks.length ∧ symEntry e i (j0 + p) (tokVal (toks.getD p [])) := by
+  intro toks
+  induction hn : toks.length using Nat.strongRecOn generalizing toks with
+  | _ n ih =>
+    intro j0 hdim hc hne rest st
+    subst hn
+    have hne' : toks.map padTok ≠ [] := by simpa using hne
+    have hpos : 0 < toks.length := List.length_pos_iff.mpr hne
+    rw [rowLines_cons _ _ _ hne', ← List.map_take, ← List.map_drop, List.cons_append]
+    obtain ⟨q1, h1, hm1⟩ := velMatLoop_line dim i j0 hi (toks.take 3) (by simp only [List.length_take]; omega)
+      (by simp only [List.length_take]; omega) (fun t ht => hc t (List.mem_of_mem_take ht))
+      (rowLines (fmt5d ((i + 1 : Nat) : Int)) (j0 + 1 + 3) ((toks.drop 3).map padTok) ++ rest) st
+    rw [h1]
+    by_cases hd : toks.drop 3 = []
+    · refine ⟨q1, by simp [hd, rowLines_nil], ?_⟩
+      intro e
+      rw [hm1 e]
+      have hl : toks.length ≤ 3 := by
+        have := congrArg List.length hd; simp only [List.length_drop, List.length_nil] at this; omega
+      have ht : toks.take 3 = toks := List.take_of_length_le hl
+      rw [ht]
+    · have h3 : 3 < toks.length := by simpa using hd
+      have hlt : (toks.drop 3).length < toks.length := by simp only [List.length_drop]; omega
+      have e3 : j0 + 1 + 3 = (j0 + 3) + 1 := by omega
+      rw [e3]
+      obtain ⟨q2, h2, hm2⟩ := ih (toks.drop 3).length hlt (toks.drop 3) rfl (j0 + 3)
+        (by simp only [List.length_drop]; omega) (fun t ht => hc t (List.mem_of_mem_drop ht)) hd rest
+        { st with q := q1, hasData := true }
+      refine ⟨q2, h2, ?_⟩
+      intro e
+      rw [hm2 e]
+      simp only []
+      rw [hm1 e]
+      have hlen3 : 3 ≤ toks.length := by omega
+      constructor
+      · rintro ((h | ⟨p, hp, hs⟩) | ⟨p, hp, hs⟩)
+        · exact Or.inl h
+        · simp only [List.length_take] at hp
+          rw [getD_take_lt _ _ _ _ (by omega)] at hs
+          exact Or.inr ⟨p, by omega, hs⟩
+        · simp only [List.length_drop] at hp
+          rw [getD_drop] at hs
+          refine Or.inr ⟨3 + p, by omega, ?_⟩
+          have : j0 + 3 + p = j0 + (3 + p) := by omega
+          rw [this] at hs
+          exact hs
+      · rintro (h | ⟨p, hp, hs⟩)
+        · exact Or.inl (Or.inl h)
+        · by_cases hp3 : p < 3
+          · refine Or.inl (Or.inr ⟨p, by simp only [List.length_take]; omega, ?_⟩)
+            rw [getD_take_lt _ _ _ _ hp3]
+            exact hs
+          · refine Or.inr ⟨p - 3, by simp only [List.length_drop]; omega, ?_⟩
+            rw [getD_drop]
+            have e1 : 3 + (p - 3) = p := by omega
+            have e2 : j0 + 3 + (p - 3) = j0 + p := by omega
+            rw [e1, e2]
+            exact hs
+
+end Sinex
+
+namespace Sinex
+open Sinex.Spec
+
+/-- first stored column (0-based) of row `i` -/
+def colOff (tri : Tri) (i : Nat) : Nat :=
+  match tri with
+  | .L => 0
+  | .U => i
+
+theorem rowStart_eq (tri : Tri) (i : Nat) : rowStart tri i = colOff tri i + 1 := by
+  cases tri <;> simp [rowStart, colOff]
+
+theorem rowToks_length (tri : Tri) (M : Nat → Nat → Str) (n i : Nat) :
+    (rowToks tri M n i).length = match tri with
+      | .L => i + 1
+      | .U => n - i := by
+  cases tri <;> simp [rowToks]
+
+theorem rowToks_getD (tri : Tri) (M : Nat → Nat → Str) (n i p : Nat)
+    (hp : p < (rowToks tri M n i).length) :
+    (rowToks tri M n i).getD p [] = M i (colOff tri i + p) := by
+  cases tri with
+  | L =>
+    simp only [rowToks, List.length_map, List.length_range] at hp
+    simp [rowToks, colOff, List.getD_eq_getElem?_getD, hp]
+  | U =>
+    simp only [rowToks, List.length_map, List.length_range] at hp
+    simp [rowToks, colOff, List.getD_eq_getElem?_getD, hp]
+
+theorem colOff_add_len_le (tri : Tri) (M : Nat → Nat → Str) {n i : Nat} (hi : i < n) :
+    colOff tri i + (rowToks tri M n i).length ≤ n := by
+  cases tri <;> simp [rowToks, colOff] <;> omega
+
+theorem velMatLoop_rows (dim : Nat) (tri : Tri) (M : Nat → Nat → Str) (n : Nat) (hn : n ≤ dim)
+    (hc : ∀ i, i < n → ∀ t ∈ rowToks tri M n i, canonTok t = true) :
+    ∀ m, m ≤ n → ∀ (rest : List Str) (st : VelMatState),
+      ∃ q', velMatLoop dim ((List.range m).flatMap (fun i =>
+              rowLines (fmt5d ((i + 1 : Nat) : Int)) (rowStart tri i) ((rowToks tri M n i).map padTok)) ++ rest) st
+          = velMatLoop dim rest { st with q := q', hasData := st.hasData || decide (0 < m) } ∧
+        ∀ e, e ∈ q' ↔ e ∈ st.q ∨ ∃ i, i < m ∧ ∃ p, p < (rowToks tri M n i).length ∧
+          symEntry e i (colOff tri i + p) (tokVal (M i (colOff tri i + p))) := by
+  intro m
+  induction m with
+  | zero =>
+    intro _ rest st
+    refine ⟨st.q, by simp, fun e => by simp⟩
+  | succ m ih =>
+    intro hm rest st
+    have hmn : m < n := by omega
+    rw [List.range_succ, List.flatMap_append, List.append_assoc]
+    simp only [List.flatMap_cons, List.flatMap_nil, List.append_nil]
+    obtain ⟨q1, h1, hm1⟩ := ih (by omega)
+      (rowLines (fmt5d ((m + 1 : Nat) : Int)) (rowStart tri m) ((rowToks tri M n m).map padTok) ++ rest) st
+    rw [h1, rowStart_eq]
+    obtain ⟨q2, h2, hm2⟩ := velMatLoop_row dim m (by omega) (rowToks tri M n m) (colOff tri m)
+      (by have := colOff_add_len_le tri M hmn; omega) (hc m hmn) (rowToks_ne_nil tri M hmn) rest
+      { st with q := q1, hasData := st.hasData || decide (0 < m) }
+    refine ⟨q2, by rw [h2]; simp, ?_⟩
+    intro e
+    rw [hm2 e]
+    simp only []
+    rw [hm1 e]
+    constructor
+    · rintro ((h | ⟨i, hi, p, hp, hs⟩) | ⟨p, hp, hs⟩)
+      · exact Or.inl h
+      · exact Or.inr ⟨i, by omega, p, hp, hs⟩
+      · rw [rowToks_getD _ _ _ _ _ hp] at hs
+        exact Or.inr ⟨m, by omega, p, hp, hs⟩
+    · rintro (h | ⟨i, hi, p, hp, hs⟩)
+      · exact Or.inl (Or.inl h)
+      · by_cases him : i = m
+        · subst him
+          refine Or.inr ⟨p, hp, ?_⟩
+          rw [rowToks_getD _ _ _ _ _ hp]
+          exact hs
+        · exact Or.inl (Or.inr ⟨i, by omega, p, hp, hs⟩)
+
+/-- the whole block of a rendered solution: comment lines collected, terminator found, `Q` holds
+exactly the symmetric assignments of the stored triangle -/
+theorem velMatLoop_matBlock {s : Sol} (h : WF s) (hpos : 0 < s.n) :
+    ∃ q, velMatLoop s.n (matBlock s) {} = .ok
+        { hdr := [matHead s.tri, matTitle], blockEnd := some "-SOLUTION/MATRIX_ESTIMATE".toList,
+          hasData := true, q := q } ∧
+      ∀ e, e ∈ q ↔ ∃ i, i < s.n ∧ ∃ p, p < (rowToks s.tri s.mat s.n i).length ∧
+        symEntry e i (colOff s.tri i + p) (tokVal (s.mat i (colOff s.tri i + p))) := by
+  obtain ⟨q, hq, hmem⟩ := velMatLoop_rows s.n s.tri s.mat s.n (Nat.le_refl _)
+    (fun i hi => canon_of_wf h hi) s.n (Nat.le_refl _) ["-SOLUTION/MATRIX_ESTIMATE".toList]
+    { hdr := [matHead s.tri, matTitle] }
+  refine ⟨q, ?_, by simpa using hmem⟩
+  have hshape : matBlock s = matHead s.tri :: matTitle :: (matLines s ++ ["-SOLUTION/MATRIX_ESTIMATE".toList]) := by
+    simp [matBlock, matBlockOf]
+  have hhead : ∃ r, matHead s.tri = '+' :: r := by cases s.tri <;> exact ⟨_, rfl⟩
+  obtain ⟨r, hr⟩ := hhead
+  have htitle : matTitle = '*' :: matTitle.tail := rfl
+  have hend : "-SOLUTION/MATRIX_ESTIMATE".toList = '-' :: "SOLUTION/MATRIX_ESTIMATE".toList := rfl
+  rw [hshape]
+  unfold matLines
+  rw [velMatLoop.eq_def]
+  simp only [hr, show (('+' : Char) == '+' || '+' == '*') = true by decide, if_true]
+  rw [velMatLoop.eq_def]
+  rw [htitle]
+  simp only [show (('*' : Char) == '+' || '*' == '*') = true by decide, if_true, List.nil_append]
+  rw [← htitle, ← hr] at *
+  have e : ([matHead s.tri] ++ [matTitle] : List Str) = [matHead s.tri, matTitle] := rfl
+  rw [e, hq, hend]
+  simp [velMatLoop, hpos]
 
 end Sinex
